@@ -233,3 +233,76 @@ pub fn thrift_side_docs() -> Vec<(&'static str, SDoc)> {
     };
     vec![("struct-literal-default-ignores-member-defaults", SDoc { files: vec![lit_file] })]
 }
+
+// ---------------------------------------------------------------------------------------------
+// protobuf kitchen sinks
+
+pub fn proto_docs() -> Vec<crate::pschema::PDoc> {
+    use crate::pschema::*;
+    let mk = |proto3: bool, stem: &str, pkg: Vec<String>| -> PFile {
+        let file = 0usize;
+        let inner = PMessage {
+            name: "Inner".into(),
+            fields: vec![
+                PField { number: 1, name: "a".into(), ty: PTy::Scalar(Sc::Sint32), label: if proto3 { Label::Plain } else { Label::Optional } },
+                PField { number: 2, name: "b".into(), ty: PTy::Scalar(Sc::String), label: Label::Repeated },
+                PField { number: 3, name: "again".into(), ty: PTy::Message(Ref { file, path: vec!["All".into(), "Inner".into()] }), label: Label::Optional },
+            ],
+            oneofs: vec![],
+            nested: vec![],
+            enums: vec![],
+        };
+        let kind = PEnum { name: "Kind".into(), values: vec![("KIND_ZERO".into(), 0), ("KIND_ONE".into(), 1), ("KIND_BIG".into(), 100000), ("KIND_NEG".into(), -3)] };
+        let mut fields = vec![];
+        let mut n = 1u32;
+        for sc in ALL_SC {
+            let low = sc.name();
+            fields.push(PField { number: n, name: format!("s_{}", low), ty: PTy::Scalar(sc), label: if proto3 { Label::Plain } else { Label::Required } });
+            fields.push(PField { number: n + 20, name: format!("o_{}", low), ty: PTy::Scalar(sc), label: Label::Optional });
+            fields.push(PField { number: n + 40, name: format!("r_{}", low), ty: PTy::Scalar(sc), label: Label::Repeated });
+            fields.push(PField { number: n + 60, name: format!("mv_{}", low), ty: PTy::Scalar(sc), label: Label::Map(Sc::String) });
+            if sc.map_key_ok() {
+                fields.push(PField { number: n + 80, name: format!("mk_{}", low), ty: PTy::Scalar(Sc::Int32), label: Label::Map(sc) });
+            }
+            fields.push(PField { number: n + 100, name: format!("one_{}", low), ty: PTy::Scalar(sc), label: Label::Oneof(0) });
+            n += 1;
+        }
+        let inner_ref = Ref { file, path: vec!["All".into(), "Inner".into()] };
+        let kind_ref = Ref { file, path: vec!["All".into(), "Kind".into()] };
+        fields.push(PField { number: 200, name: "msg".into(), ty: PTy::Message(inner_ref.clone()), label: Label::Optional });
+        fields.push(PField { number: 201, name: "msgs".into(), ty: PTy::Message(inner_ref.clone()), label: Label::Repeated });
+        fields.push(PField { number: 202, name: "msg_map".into(), ty: PTy::Message(inner_ref.clone()), label: Label::Map(Sc::Sint64) });
+        fields.push(PField { number: 203, name: "kind".into(), ty: PTy::Enum(kind_ref.clone()), label: if proto3 { Label::Plain } else { Label::Optional } });
+        fields.push(PField { number: 204, name: "kinds".into(), ty: PTy::Enum(kind_ref.clone()), label: Label::Repeated });
+        fields.push(PField { number: 205, name: "kind_map".into(), ty: PTy::Enum(kind_ref.clone()), label: Label::Map(Sc::Bool) });
+        fields.push(PField { number: 206, name: "one_msg".into(), ty: PTy::Message(inner_ref.clone()), label: Label::Oneof(1) });
+        fields.push(PField { number: 207, name: "one_kind".into(), ty: PTy::Enum(kind_ref), label: Label::Oneof(1) });
+        fields.push(PField { number: 536870911, name: "last".into(), ty: PTy::Scalar(Sc::Fixed32), label: Label::Optional });
+        fields.push(PField { number: 2047, name: "two_byte_key_edge".into(), ty: PTy::Scalar(Sc::Uint64), label: Label::Optional });
+        fields.push(PField { number: 2048, name: "three_byte_key".into(), ty: PTy::Scalar(Sc::Sfixed64), label: Label::Repeated });
+        let all = PMessage { name: "All".into(), fields, oneofs: vec!["pick".into(), "other".into()], nested: vec![inner], enums: vec![kind] };
+        let tree = PMessage {
+            name: "Tree".into(),
+            fields: vec![
+                PField { number: 1, name: "value".into(), ty: PTy::Scalar(Sc::Int64), label: if proto3 { Label::Plain } else { Label::Optional } },
+                PField { number: 2, name: "kids".into(), ty: PTy::Message(Ref { file, path: vec!["Tree".into()] }), label: Label::Repeated },
+                PField { number: 3, name: "left".into(), ty: PTy::Message(Ref { file, path: vec!["Tree".into()] }), label: Label::Optional },
+                PField { number: 4, name: "by_name".into(), ty: PTy::Message(Ref { file, path: vec!["Tree".into()] }), label: Label::Map(Sc::String) },
+                PField { number: 5, name: "all".into(), ty: PTy::Message(Ref { file, path: vec!["All".into()] }), label: Label::Optional },
+            ],
+            oneofs: vec![],
+            nested: vec![],
+            enums: vec![],
+        };
+        PFile {
+            stem: stem.into(),
+            proto3,
+            package: pkg,
+            imports: vec![],
+            messages: vec![all, tree],
+            enums: vec![],
+            services: vec![("Greeter".into(), vec![("Say".into(), Ref { file, path: vec!["All".into()] }, Ref { file, path: vec!["Tree".into()] }, false, false), ("Chat".into(), Ref { file, path: vec!["Tree".into()] }, Ref { file, path: vec!["Tree".into()] }, true, true)])],
+        }
+    };
+    vec![PDoc { files: vec![mk(true, "kp3", vec!["kit".into(), "p3".into()])] }, PDoc { files: vec![mk(false, "kp2", vec![])] }]
+}
